@@ -169,6 +169,8 @@ def judge(ctx, ast, sp, T, vi, v):
     from pane.errors import ConvertError
     pane = ctx.pane
     res = ctx.res
+    if 'ndarray' in e1.leaves_of(ast):
+        return       # bare ndarray = array of Any: numpy, not pane, infers the dtype (object arrays, '<U21' vs '<U1'); ndarray_int is judged
     if not values.is_interchange(v) and IDENTITY_LEAVES & e1.leaves_of(ast):
         return       # Any / bare containers hand the datum through by identity: only plain interchange data is 'a value of the type'
     try:
@@ -215,8 +217,11 @@ def judge(ctx, ast, sp, T, vi, v):
     if not ok or not eq_mod_excluded(ast, x, x2):
         ov = union_overlap(pane, ast, x)
         kw_tuple = tuple_out_with_kwonly(ast)
-        core.add_violation(res, {'kind': 'roundtrip_differs', 'union_overlap': bool(ov), 'tuple_out_kw_only': kw_tuple, 'root': root,
-                                 'leaves': sorted(e1.leaves_of(ast))[:3] if not ov and not kw_tuple else []},
+        tr = 'pane.types.Range' if e1.leaves_of(ast) & {'range_int', 'range_float'} else None
+        sig = {'kind': 'roundtrip_differs', 'union_overlap': bool(ov), 'tuple_out_kw_only': kw_tuple, 'type_root': tr}
+        if not (ov or kw_tuple or tr):
+            sig.update(root=root, leaves=sorted(e1.leaves_of(ast))[:3])
+        core.add_violation(res, sig,
                            f"{desc}; into_data -> {core.srepr(d, 70)}; from_data of that -> "
                            f"{'ConvertError: ' + core.sstr(x2, 80) if not ok else core.srepr(x2, 80)}", cell, cost)
         return
@@ -407,7 +412,7 @@ def _check_cube_serial(spec, x, d):
 
 def run_shard(shard, tier):
     if shard.get('kind') != 'cube':
-        return e1.run_shard(shard, tier, judge)
+        return e1.run_shard(shard, tier, judge, expr_fn=grammar.expressions_ext)
     pane = core.import_pane()
     warnings.simplefilter('ignore')
     res = core.new_result()
